@@ -19,6 +19,10 @@ def step (_s : Unit) (ts : List String) : Unit × String :=
     match ts with
     | ["consts"] =>
       s!"tau={TAU} min={MIN_EPOCH_LENGTH} max={MAX_EPOCH_LENGTH} ort={ORPHAN_RATE_TARGET_NUMER}/{ORPHAN_RATE_TARGET_DENOM} bits={EPOCH_NUMBER_BITS},{EPOCH_INDEX_BITS},{EPOCH_LENGTH_BITS} target={EPOCH_DURATION_TARGET}"
+    | ["ts", t, prev] =>
+      (match parseNat? t, parseNatList? prev with
+       | some t, some prev => if timestampOk t prev then "ok" else "too-old"
+       | _, _ => "bad-op")
     | op :: args =>
       match parseNats? args with
       | none => "bad-op"
@@ -45,6 +49,11 @@ def step (_s : Unit) (ts : List String) : Unit × String :=
            | some .ok => "ok" | some .invalidNonce => "invalid-nonce" | some .unknownParent => "unknown-parent"
            | some .numberMismatch => "number" | some .epochMalformed => "epoch-malformed"
            | some .epochNonContinuous => "epoch-noncontinuous")
+        | "gbe", [hn, start, len, tuH, tuP, tsH, tsP] =>
+          (match getBlockEpoch hn start len tuH tuP tsH tsP with
+           | none => "fail"
+           | some none => "nontail"
+           | some (some (u, d)) => s!"tail {u} {d}")
         | "nwf", [number, start, len, n] =>
           optNat (numberWithFraction { number, base := 0, rem := 0, prevHR := 0, start, length := len, compact := 0 } n)
         | "prim", [initial, halving, n] => optNat (primaryEpochReward { T := 0, initial, halving } n)
